@@ -327,7 +327,11 @@ class Evaluator:
 
     @staticmethod
     def conj(preds) -> Val:
-        preds = [p for p in preds]
+        uniq = []
+        for p in preds:
+            if not any(veq(p, q) for q in uniq):
+                uniq.append(p)
+        preds = uniq
         if not preds:
             return TRUE
         if len(preds) == 1:
@@ -954,7 +958,11 @@ class Evaluator:
             a = it.args[0]
             if isinstance(a, Term) and a.head == 'iter' and a.args:
                 a = a.args[0]           # a fresh iterator over a sequence visits its elements in order
-            ctx.hi = a.length if isinstance(a, Num) else (term_as_num(a, True).length if isinstance(a, Term) else None)
+            if isinstance(a, Term) and a.head == 'zip':
+                lens_ = [x_.length for x_ in a.args if isinstance(x_, Num) and x_.length is not None]
+                ctx.hi = lens_[0] if lens_ else None
+            else:
+                ctx.hi = a.length if isinstance(a, Num) else (term_as_num(a, True).length if isinstance(a, Term) else None)
             start = it.kw('start') if it.kw('start') is not None else (it.args[1] if len(it.args) > 1 else Num(C(0)))
             elem = Tup([Num(lsym + start.r) if isinstance(start, Num) else Term('binop:Add', (Num(lsym), start)), self.element_of(a, lsym)])
         else:
@@ -1134,6 +1142,33 @@ class Evaluator:
                     from .dtypes import dtype_of
                     nv.dt = dtype_of(before)
                     out[tgt.id] = nv
+        names_ = {e.data['target_expr'].id for e in stores if isinstance(e.data.get('target_expr'), ast.Name)}
+        if len(stores) >= 2 and not apps and len(names_) == 1 and all(isinstance(e.data.get('target_expr'), ast.Name) for e in stores) \
+                and next(iter(names_)) not in out and not any(e.data.get('aug') for e in stores):
+            # several guarded stores `a[k] = v_m(k)` at the iteration's own slot of an array known element-wise: slot k holds the value of the last
+            # store whose condition held, else what it held before
+            nm = next(iter(names_))
+            before = st.env.get(nm)
+            if isinstance(before, Num) and before.length is not None and before.length == ctx.hi and not sym.atoms_with_head(before.r, 'el') or \
+                    (isinstance(before, Num) and before.length is not None and before.length == ctx.hi and before.r.is_const()):
+                cur = Num(before.at(ctx.sym).r)
+                good = True
+                for e in stores:
+                    idx, v = e.data['index'], e.data['value']
+                    v = v if isinstance(v, Num) else (self.as_num(v) if isinstance(v, Term) and v.kind not in ('ndarray', 'list', 'tuple', 'dict', 'str') else None)
+                    extra = e.guard[len(st.guard):]
+                    if not (isinstance(idx, Num) and idx.length is None and idx.r == ctx.sym and isinstance(v, Num) and v.length is None):
+                        good = False
+                        break
+                    cur = gamma(self.conj(extra), v, cur) if extra else v
+                    if not isinstance(cur, Num):
+                        good = False
+                        break
+                if good and not any(isinstance(t_, Term) and t_.head in ('loopvar', 'loopstate') and t_.uid == ctx.lid for t_ in walk_vals(cur)):
+                    nv = Num(sym.subst(cur.r, back), ctx.hi, before.kind)
+                    from .dtypes import dtype_of
+                    nv.dt = dtype_of(before)
+                    out[nm] = nv
         return out
 
     def element_of(self, a: Val, idx: Rat) -> Val:
@@ -1857,7 +1892,9 @@ class Evaluator:
         else:
             return P('cmp:' + type(op).__name__, a, b)
         if length is not None:
-            # element-wise comparison of arrays yields a boolean array
+            # element-wise comparison of arrays yields a boolean array (a <= b kept as not(b < a), so that complementary masks are recognised)
+            if p.op == '<=':
+                p = p_not(P('<', p.args[1], p.args[0]))
             return carry_mask(self, Term('mask', (p,), kind='ndarray'), na, nb, st=st, node=node)
         # a <= b is not(b < a): normalise to strict form with negation so that guards and
         # their complements are recognised
@@ -2016,6 +2053,8 @@ class Evaluator:
                 return Term('index', (nb, idx), kind='ndarray')
             if isinstance(idx, Term) and idx.head == 'lib:numpy.arange':
                 idx = term_as_num(idx, True, 'ndarray')
+            if self.elementwise and isinstance(idx, Term) and idx.kind == 'ndarray' and idx.head.startswith(('call:', 'lib:')) and idx.head != 'lib:numpy.arange':
+                idx = term_as_num(idx, True, 'ndarray')         # an opaque index array (the result of a search): element i is a[I[i]]
             if self.elementwise and isinstance(idx, Term) and idx.head == 'mask' and idx.args and getattr(nb, 'mask', None) is None \
                     and getattr(idx, 'mask', None) is None:
                 # a[M] with a boolean array M: the selected elements, kept aligned with their original positions (a masked view)
@@ -2922,6 +2961,23 @@ def h_clip_ew(ev, pos, kw, st, node):
     return carry_mask(ev, out, a, st=st, node=node)
 
 
+def _ew_const_alloc(value):
+    @_ew
+    def h(ev, pos, kw, st, node):
+        shp = _arg(pos, kw, 0, 'shape')
+        if isinstance(shp, Tup) and len(shp.items) == 1:
+            shp = shp.items[0]
+        n_ = ev.as_num(shp) if shp is not None else None
+        if n_ is None or n_.length is not None or (set(kw) - {'shape', 'dtype'}) or len(pos) > 2:
+            return None
+        out = Num(C(value), n_.r, 'ndarray')
+        from .dtypes import tag_of_dtype_arg, FLOAT
+        d = kw.get('dtype', pos[1] if len(pos) > 1 else None)
+        out.dt = tag_of_dtype_arg(d) if d is not None else FLOAT
+        return out
+    return h
+
+
 @_ew
 def h_count_table_ew(ev, pos, kw, st, node):
     """count_nonzero / sum of the comparison table of a sorted array X against queries Q along the X axis: per query, the number of elements of X
@@ -2971,7 +3027,7 @@ def h_searchsorted_ew(ev, pos, kw, st, node):
 
 LIB_HANDLERS = {
     'numpy.clip': h_clip_ew, 'numpy.minimum': _ew_minmax('min'), 'numpy.maximum': _ew_minmax('max'),
-    'numpy.searchsorted': h_searchsorted_ew, 'numpy.count_nonzero': h_count_table_ew,
+    'numpy.searchsorted': h_searchsorted_ew, 'numpy.count_nonzero': h_count_table_ew, 'numpy.zeros': _ew_const_alloc(0), 'numpy.ones': _ew_const_alloc(1),
     'numpy.linspace': h_linspace, 'numpy.ravel': h_ravel, 'numpy.full': h_full, 'numpy.pad': h_pad, 'numpy.ptp': h_ptp, 'numpy.fromiter': h_fromiter,
     'functools.partial': h_partial, 'importlib.import_module': h_import_module,
     **{'operator.' + n_: h_operator(n_) for n_ in ('add', 'sub', 'mul', 'truediv', 'pow', 'floordiv', 'mod', 'lt', 'le', 'gt', 'ge', 'eq', 'ne')},
